@@ -29,7 +29,7 @@ What is only STATED (`…_stmt`): the two statements that are FALSE of today's c
 all-or-none for answers 500), kept next to their counterexamples.
 -/
 import Kap.Proofs.C14Full
-import Kap.Model.C14Fault
+import Kap.Proofs.C14Fault
 namespace Kap.Props.C14
 open Kap.C14
 
@@ -308,6 +308,7 @@ theorem fault_in_first_transaction_of_create (env : Env) (fail : List String) (w
         have hc : (createF ⟨w, some 1, false⟩ id t).2 = false ∧ (createF ⟨w, some 1, false⟩ id t).1.w.view = w.view := by
           simp only [createF, hn, Bool.false_eq_true, if_false, FW.tx, h0]
           simp
+        unfold createCommitF
         simp only [hc.1, Bool.not_false, if_true]
         exact ⟨by show ((createF ⟨w, some 1, false⟩ id t).1.w.note _).view = _; rw [note_view]; exact hc.2, Or.inr trivial⟩
 
@@ -332,18 +333,47 @@ theorem fault_in_association_still_stops_the_task :
     (handleF demoEnv [] (some 2) (beginReq (run Variant.fixed demoEnv faultBase) none) (.update "a" { tmpl := "U", status := some false })).1.exec "a" = false := by
   decide
 
-/-- NOT proved (tied by the correspondence run on every fault-free request, and on 600+ faulted requests per run):
-the fault semantics without a fault is the model, and the running-state invariant survives any single fault. -/
-def fault_semantics_conservative_stmt : Prop :=
-  ∀ (env : Env) (fail : List String) (w : World) (op : Op), faultable op = true →
+/-- **Without a fault the fault semantics IS the model** (conservative extension): for every request — the
+faultable ones, whose handlers are transcribed a second time in Kap/Model/C14Fault.lean, and trivially the delegated
+ones — the same stored data (tasks, templates, associations AND the two ID enumerations), the same executing set,
+the same number of storage transactions and the same answer. By a simulation relation carried through every DAO
+call, every sub-step and every handler (Kap/Proofs/C14Fault.lean, part A). The driver also compares the two at run
+time on every request. -/
+theorem fault_semantics_conservative (env : Env) (fail : List String) (w : World) (op : Op) :
+    (handleF env fail none w op).1.store = (handle Variant.fixed env fail w op).1.store ∧
     (handleF env fail none w op).1.view = (handle Variant.fixed env fail w op).1.view ∧
     (handleF env fail none w op).2 = (handle Variant.fixed env fail w op).2 ∧
-    (handleF env fail none w op).1.ntx = (handle Variant.fixed env fail w op).1.ntx
+    (handleF env fail none w op).1.ntx = (handle Variant.fixed env fail w op).1.ntx := by
+  obtain ⟨hs, he, hn, hr⟩ := handleF_none env fail w op
+  exact ⟨hs, by unfold World.view; rw [hs, he], hr, hn⟩
 
-def executing_implies_enabled_under_faults_stmt : Prop :=
-  ∀ (env : Env) (fail : List String) (k : Nat) (w : World) (op : Op), ExecInv w → ExecInv (handleF env fail (some k) w op).1
+/-- **The running-state invariant survives a fault in ANY transaction of ANY request**: whatever transaction `k`
+of the request fails (and commits nothing), and whatever the handler then does with the error (500 and return, or log
+and go on), everything TaskMaster executes afterwards is still a stored, enabled task. All states, all oracles, all
+`k` (also `k` = 0 or beyond the last transaction: no fault). Part B of Kap/Proofs/C14Fault.lean: per DAO call, per
+sub-step, per handler. -/
+theorem executing_implies_enabled_under_faults (env : Env) (fail : List String) (k : Nat) (w : World) (op : Op)
+    (h : ExecInv w) : ExecInv (handleF env fail (some k) w op).1 :=
+  handleF_inv env fail (some k) w op h
+
+/-- … hence along every history in which any request may suffer a fault in any of its transactions. -/
+theorem executing_implies_enabled_all_faulted_histories (env : Env) (reqs : List (Op × List String × Option Nat)) :
+    ExecInv (reqs.foldl (fun w r => (handleF env r.2.1 r.2.2 (beginReq w none) r.1).1) {}) := by
+  suffices ∀ (w : World), ExecInv w →
+      ExecInv (reqs.foldl (fun w r => (handleF env r.2.1 r.2.2 (beginReq w none) r.1).1) w) from
+    this {} (fun i hi => by simp [World.view] at hi)
+  induction reqs with
+  | nil => exact fun w h => h
+  | cons r rest ih => exact fun w h => ih _ (handleF_inv env r.2.1 r.2.2 (beginReq w none) r.1 h)
 
 /-! ### Non-vacuity -/
+
+/-- The hypothesis of `executing_implies_enabled_under_faults` is met by a reachable state with an executing,
+templated task (the state on which the fault witnesses above are evaluated), and there the faulted requests do
+change the store and the executing set. -/
+example : ExecInv (beginReq (run Variant.fixed demoEnv faultBase) none) ∧
+    (run Variant.fixed demoEnv faultBase).exec "a" = true :=
+  ⟨executing_implies_enabled_all_histories Variant.fixed demoEnv faultBase, by decide⟩
 
 /-- A rejected request with a non-trivial state: the hypothesis of `rejected_request_leaves_no_trace` is met. -/
 example : (handle Variant.fixed demoEnv [] (run Variant.fixed demoEnv (hijack.take 1))
